@@ -25,7 +25,7 @@ ASSUMPTIONS = [
     "solutions compared through canonical keys (mapping, labelling) built from pre-order node positions",
     "cost vectors inside the coherent region (F-COHERENCE)",
 ]
-BUDGET = {"quick": 300, "thorough": 3300}
+BUDGET = {"quick": 900, "thorough": 3300}
 INF = dtl.INF
 
 TIE_MENU = [(0, 1, 1, 1, 1), (1, 1, 1, 1, 1), (0, 1, 1, 0, 0), (0, 1, 0, 1, 1), (0, 0, 1, 1, 1), (0, 1, INF, 1, 1), (0, 2, 2, 1, 1)]
